@@ -45,9 +45,10 @@ def langs_for(funcs) -> list:
 
 
 class _W:
-    def __init__(self):
+    def __init__(self, terse=False):
         self.lines = []
         self.n = 0
+        self.terse = terse  # blocks that hold only their leaf statement are written without a block where the language allows it
 
     def add(self, indent, text):
         self.lines.append("    " * indent + text)
@@ -60,6 +61,15 @@ class _W:
 # ---------------------------------------------------------------- python
 
 
+def _py_block(w, head, br, ind):
+    if w.terse and not br:
+        i = w.fresh()
+        w.add(ind, f"{head} v{i} = f{i}()")
+    else:
+        w.add(ind, head)
+        _py_forest(w, br, ind + 1)
+
+
 def _py_forest(w, forest, ind):
     i = w.fresh()
     w.add(ind, f"v{i} = f{i}()")
@@ -70,43 +80,33 @@ def _py_forest(w, forest, ind):
             has_else = n.get("else") and len(b) >= 2
             conds = b[:-1] if has_else else b
             for idx, br in enumerate(conds):
-                w.add(ind, ("if" if idx == 0 else "elif") + f" c{j}_{idx}:")
-                _py_forest(w, br, ind + 1)
+                _py_block(w, ("if" if idx == 0 else "elif") + f" c{j}_{idx}:", br, ind)
             if has_else:
-                w.add(ind, "else:")
-                _py_forest(w, b[-1], ind + 1)
+                _py_block(w, "else:", b[-1], ind)
         elif k == "for":
-            w.add(ind, f"for i{j} in xs{j}:")
-            _py_forest(w, b[0], ind + 1)
+            _py_block(w, f"for i{j} in xs{j}:", b[0], ind)
         elif k == "while":
-            w.add(ind, f"while c{j}:")
-            _py_forest(w, b[0], ind + 1)
+            _py_block(w, f"while c{j}:", b[0], ind)
         elif k == "match":
             w.add(ind, f"match m{j}:")
             for idx, br in enumerate(b):
                 pat = "_" if idx == len(b) - 1 and idx > 0 else str(idx + 1)
-                w.add(ind + 1, f"case {pat}:")
-                _py_forest(w, br, ind + 2)
+                _py_block(w, f"case {pat}:", br, ind + 1)
         elif k == "with":
-            w.add(ind, f"with ctx{j}() as r{j}:")
-            _py_forest(w, b[0], ind + 1)
+            _py_block(w, f"with ctx{j}() as r{j}:", b[0], ind)
         elif k == "awith":
-            w.add(ind, f"async with ctx{j}() as r{j}:")
-            _py_forest(w, b[0], ind + 1)
+            _py_block(w, f"async with ctx{j}() as r{j}:", b[0], ind)
         elif k == "try":
-            w.add(ind, "try:")
-            _py_forest(w, b[0], ind + 1)
-            w.add(ind, "except Exception:")
-            _py_forest(w, b[1], ind + 1)
+            _py_block(w, "try:", b[0], ind)
+            _py_block(w, "except Exception:", b[1], ind)
             if len(b) > 2:
-                w.add(ind, "finally:")
-                _py_forest(w, b[2], ind + 1)
+                _py_block(w, "finally:", b[2], ind)
         else:
             raise ValueError(k)
 
 
-def render_py(funcs):
-    w = _W()
+def render_py(funcs, terse=False):
+    w = _W(terse)
     w.add(0, '"""generated skeleton"""')
     headers = {}
     in_class = False
@@ -135,6 +135,19 @@ def render_py(funcs):
 # ---------------------------------------------------------------- typescript / javascript
 
 
+def _ts_single(w, head, br, ind, tail=None):
+    """`head {` body `}` (+ tail on the closing line), or head + one expression statement when terse and leaf-only."""
+    if w.terse and not br:
+        i = w.fresh()
+        w.add(ind, f"{head} f{i}();")
+        if tail:
+            w.add(ind, tail)
+        return
+    w.add(ind, head + " {")
+    _ts_forest(w, br, ind + 1)
+    w.add(ind, "}" + (" " + tail if tail else ""))
+
+
 def _ts_forest(w, forest, ind):
     i = w.fresh()
     w.add(ind, f"const v{i} = f{i}();")
@@ -144,6 +157,12 @@ def _ts_forest(w, forest, ind):
         if k == "if":
             has_else = n.get("else") and len(b) >= 2
             conds = b[:-1] if has_else else b
+            if w.terse and all(not br for br in b):
+                for idx, br in enumerate(conds):
+                    w.add(ind, ("if" if idx == 0 else "else if") + f" (c{j}_{idx}) f{w.fresh()}();")
+                if has_else:
+                    w.add(ind, f"else f{w.fresh()}();")
+                continue
             for idx, br in enumerate(conds):
                 w.add(ind, ("if" if idx == 0 else "} else if") + f" (c{j}_{idx}) {{")
                 _ts_forest(w, br, ind + 1)
@@ -152,25 +171,15 @@ def _ts_forest(w, forest, ind):
                 _ts_forest(w, b[-1], ind + 1)
             w.add(ind, "}")
         elif k == "for":
-            w.add(ind, f"for (let i{j} = 0; i{j} < n{j}; i{j}++) {{")
-            _ts_forest(w, b[0], ind + 1)
-            w.add(ind, "}")
+            _ts_single(w, f"for (let i{j} = 0; i{j} < n{j}; i{j}++)", b[0], ind)
         elif k == "forin":
-            w.add(ind, f"for (const k{j} in obj{j}) {{")
-            _ts_forest(w, b[0], ind + 1)
-            w.add(ind, "}")
+            _ts_single(w, f"for (const k{j} in obj{j})", b[0], ind)
         elif k == "forof":
-            w.add(ind, f"for (const x{j} of xs{j}) {{")
-            _ts_forest(w, b[0], ind + 1)
-            w.add(ind, "}")
+            _ts_single(w, f"for (const x{j} of xs{j})", b[0], ind)
         elif k == "while":
-            w.add(ind, f"while (c{j}) {{")
-            _ts_forest(w, b[0], ind + 1)
-            w.add(ind, "}")
+            _ts_single(w, f"while (c{j})", b[0], ind)
         elif k == "dowhile":
-            w.add(ind, "do {")
-            _ts_forest(w, b[0], ind + 1)
-            w.add(ind, f"}} while (c{j});")
+            _ts_single(w, "do", b[0], ind, tail=f"while (c{j});")
         elif k == "match":
             w.add(ind, f"switch (m{j}) {{")
             for idx, br in enumerate(b):
@@ -192,8 +201,8 @@ def _ts_forest(w, forest, ind):
             raise ValueError(k)
 
 
-def render_ts(funcs, typed=True):
-    w = _W()
+def render_ts(funcs, typed=True, terse=False):
+    w = _W(terse)
     w.add(0, "// generated skeleton")
     headers = {}
     in_class = False
@@ -214,6 +223,11 @@ def render_ts(funcs, typed=True):
             w.add(0, "}")
             in_class = False
         w.add(0, "")
+        if c == "arrow" and terse and not f["body"]:
+            # expression-bodied arrow function: a function of depth 1 without a block
+            w.add(0, f"const {f['name']} = (a{ann}) => f{w.fresh()}(a);")
+            headers[f["name"]] = len(w.lines)
+            continue
         if c == "arrow":
             w.add(0, f"const {f['name']} = (a{ann}) => {{")
         elif c == "funcexpr":
@@ -272,11 +286,17 @@ def _rs_forest(w, forest, ind):
             w.add(ind, f"match m{j} {{")
             for idx, br in enumerate(b):
                 pat = "_" if idx == len(b) - 1 and idx > 0 else str(idx + 1)
+                if w.terse and not br:
+                    w.add(ind + 1, f"{pat} => f{w.fresh()}(),")  # bare-expression arm
+                    continue
                 w.add(ind + 1, f"{pat} => {{")
                 _rs_forest(w, br, ind + 2)
                 w.add(ind + 1, "}")
             w.add(ind, "}")
         elif k == "closure":
+            if w.terse and not b[0]:
+                w.add(ind, f"let g{j} = |p{j}: i32| f{w.fresh()}(p{j});")  # closure without a block
+                continue
             w.add(ind, f"let g{j} = |p{j}: i32| {{")
             _rs_forest(w, b[0], ind + 1)
             w.add(ind, "};")
@@ -284,8 +304,8 @@ def _rs_forest(w, forest, ind):
             raise ValueError(k)
 
 
-def render_rs(funcs):
-    w = _W()
+def render_rs(funcs, terse=False):
+    w = _W(terse)
     w.add(0, "// generated skeleton")
     headers = {}
     in_impl = False
@@ -341,14 +361,18 @@ def compact(text, headers):
 
 
 def render(funcs, lang, layout="lines"):
+    """layout: lines | compact (brace languages: one physical line per top-level item) | terse (blocks that hold only
+    their leaf statement are written without a block: `if c: stmt`, `if (c) stmt;`, `pat => expr,`, `|p| expr`,
+    `(a) => expr`) - the control-structure tree, and with it the documented depth, is the same in every layout."""
     if layout == "compact" and lang != "py":
         return compact(*render(funcs, lang))
+    terse = layout == "terse"
     if lang == "py":
-        return render_py(funcs)
+        return render_py(funcs, terse)
     if lang == "ts":
-        return render_ts(funcs, True)
+        return render_ts(funcs, True, terse)
     if lang == "js":
-        return render_ts(funcs, False)
+        return render_ts(funcs, False, terse)
     if lang == "rs":
-        return render_rs(funcs)
+        return render_rs(funcs, terse)
     raise ValueError(lang)
